@@ -203,8 +203,12 @@ func (c *client) WaitForVersionChange(ctx context.Context, key, ver string) erro
 
 // ListKeys allows to read the keys by the pattern provided.
 func (c *client) ListKeys(ctx context.Context, pattern string) (iterable.Iterator[string], error) {
-	si := c.rdb.Scan(ctx, 0, rKey(pattern), 1000).Iterator()
-	return &keysIterator{si: si}, nil
+	cmd := c.rdb.Scan(ctx, 0, rKey(pattern), 1000)
+	if err := cmd.Err(); err != nil {
+		// the first SCAN failed (context done, connection lost): an empty listing would say "no such keys"
+		return nil, err
+	}
+	return &keysIterator{si: cmd.Iterator()}, nil
 }
 
 func (c *client) Close() error {
